@@ -55,6 +55,9 @@ structure Blk where
   /-- the JSGF text that was installed (string, file or configuration) and the configured `toprule` -/
   jsgfText : Option Bytes := none
   toprule : Option Bytes := none
+  /-- `SD <i> <0|1>`: search-FSG word `i` is a filler word BY THE DICTIONARY (`dict_filler_word`), printed by the harness
+  independently of the grammar's own filler marks (`fsg_model_is_filler`, the flag of the `SW` lines) -/
+  dictFiller : Array (Nat × Bool) := #[]
   bad : List String := []
 
 def splitOn20 (b : Bytes) : List Bytes :=
@@ -123,6 +126,10 @@ def feed (b : Blk) (ws : List String) : Blk :=
       let link : Option Nat := if li = -1 then none else if li < 0 then some 1000000000 else some li.toNat
       { b with ents := b.ents.push { link, frame := fr, score := sc, pred := pr, lc, rc := parseRc rc } }
     | _, _, _, _, _ => { b with bad := "E" :: b.bad }
+  | ["SD", i, f] =>
+    match parseNat i with
+    | some i => { b with dictFiller := b.dictFiller.push (i, f = "1") }
+    | none => { b with bad := "SD" :: b.bad }
   | ["J", t] => { b with jsgfText := parseHex t }
   | ["JT", t] => { b with toprule := if t = "-" then none else parseHex t }
   | ["H", w, sc] =>
@@ -254,6 +261,16 @@ def answer (b : Blk) : List String := Id.run do
   let segW : List Bytes := segWords baseOf g rsegs
   let hypW : List Bytes := match b.hyp with | none => [] | some s => if s.isEmpty then [] else splitOn20 s
   out := out ++ [s!"R hypseg {b01 (segW == hypW)}"]
+  -- the same clause with "filler" read from the DICTIONARY (lines `SD`), and the tie grammar marks = dictionary marks
+  if !b.dictFiller.isEmpty then
+    let dictIds := b.dictFiller.toList.filterMap fun (i, f) => if f then some i else none
+    let gd : Fsg := { g with filler := dictIds }
+    -- … on every word that labels a transition of the search FSG (only those can occur in a segmentation; building a
+    -- lattice appends the sentence markers `<s>`, `</s>` to the vocabulary, marked, on no transition)
+    let onArc (i : Nat) : Bool := b.sArcs.any fun l => l.wid == Int.ofNat i
+    let tie := decide (b.dictFiller.size = b.sWords.size) && (List.range b.sWords.size).all fun i =>
+      !onArc i || fillerIds.contains i == dictIds.contains i
+    out := out ++ [s!"R hypsegd {b01 (segWords baseOf gd rsegs == hypW)} {b01 tie}"]
   -- projection onto the loaded grammar, acceptance of what was reported
   if b.hasG then
     let tbl : Array Bytes := Id.run do
